@@ -501,6 +501,7 @@ fn unbounded_head(ctx: &mut Ctx) {
 pub fn run(ctx: &mut Ctx) {
     super::replay_corpus(ctx, replay);
     ctx.run_suite(&SegSuite);
+    ctx.run_suite(&super::c02bp::BackPressureSuite);
     unbounded_head(ctx);
     ctx.assume("heads of 1000-1299 bytes are not generated: their acceptance legitimately depends on read sizes");
     ctx.assume("the codec is exercised inside a real tunnel session (Tunnel + HttpDownstream + scripted forwarder); its observable request is the forwarder's view (destination, user agent) for CONNECT and the origin's view for plain HTTP");
@@ -510,6 +511,7 @@ pub fn run(ctx: &mut Ctx) {
 pub fn replay(ctx: &mut Ctx, suite: &str, case: &Value) -> bool {
     match suite {
         "segmentation" => ctx.replay_suite(&SegSuite, case),
+        "bidirectional-back-pressure" => ctx.replay_suite(&super::c02bp::BackPressureSuite, case),
         _ => false,
     }
 }
